@@ -35,6 +35,18 @@ class NetP:
             return Fn(model=lambda ex, st, a, k: ParamSeq(self, self.nw if self.registered else 0), name="parameters")
         if name == "W":
             return self.W
+        if name == "state_dict":
+            return Fn(model=lambda ex, st, a, k: ("state-dict", self.nw, self.W), name=name)                 # values of all weights
+        if name == "load_state_dict":
+            def load(ex, st, a, k):
+                tag, nw, W = a[0]
+                same = z3ify(nw) == z3ify(self.nw)
+                if ex.feasible(st, z3.Not(same)) and not ex.decide(st, same):
+                    raise PyRaise("RuntimeError")                                                             # size mismatch (architecture differs)
+                self.W = W                                                                                    # copied in place into the module's own parameters
+            return Fn(model=load, name=name)
+        if name == "requires_grad_":
+            return Fn(model=lambda ex, st, a, k: self, name=name)                                             # still parameters of the module
         raise Undecided(f"network attribute {name}")
 
     def havoc(self, ex, st, name):
